@@ -29,6 +29,7 @@ import ast
 
 from ..core import AnalysisError
 from ..core import norm
+from ..httpstream import BUFS
 from ..httpstream import HttpStreamSpec
 from ..httpstream import REL
 from ..layerx import EV
@@ -76,38 +77,35 @@ class BodySizeSpec(HttpStreamSpec):
         return ("handler", exc_name)
 
     def value(self, expr, st, depth):
-        ch = attr_chain(expr)
-        if ch.endswith(".options.stream_large_bodies") or ch == "options.stream_large_bodies" or self._opt_alias(ch, "stream_large_bodies", st, depth):
+        # options are recognised by the object they are read from (also through a local bound to the options object / to `self.context`)
+        ch = self.chain(expr, st, depth) if isinstance(expr, ast.Attribute) else ""
+        if ch.endswith(".options.stream_large_bodies") or ch == "options.stream_large_bodies":
             return C("thr" if self.cfg["thr_rel"] != "unset" else None)
-        if ch.endswith(".options.body_size_limit") or ch == "options.body_size_limit" or self._opt_alias(ch, "body_size_limit", st, depth):
+        if ch.endswith(".options.body_size_limit") or ch == "options.body_size_limit":
             return C("lim" if self.cfg["limit_rel"] != "unset" else None)
         if isinstance(expr, ast.Call):
-            name = last_attr(expr.func)
-            if name == "parse_size" and expr.args:
-                a = attr_chain(expr.args[0])
-                if a.endswith("body_size_limit"):
-                    return ("opt", "limit") if self.cfg["limit_rel"] != "unset" else C(None)
-                if a.endswith("stream_large_bodies"):
-                    return ("opt", "thr") if self.cfg["thr_rel"] != "unset" else C(None)
+            name = self.callee_name(expr.func, st, depth) if isinstance(expr.func, ast.Name) else last_attr(expr.func)
+            if name == "parse_size" and (expr.args or expr.keywords):
+                # by value: the argument is one of the two option values (directly, through a temporary or a helper parameter)
+                v = self.value(expr.args[0] if expr.args else expr.keywords[0].value, st, depth)
+                if v == C("lim"):
+                    return ("opt", "limit")
+                if v == C("thr"):
+                    return ("opt", "thr")
+                if v == C(None):
+                    return C(None)
                 raise AnalysisError(f"parse_size of an unknown option: {norm(expr)}")
             if name == "len" and len(expr.args) == 1:
-                # the abstract value of a body buffer (also through a local alias / conditional expression) is its non-emptiness
-                arg = expr.args[0]
-                flag = HttpStreamSpec.value(self, arg, st, depth)
-                if attr_chain(arg) in ("self.request_body_buf", "self.response_body_buf") or (isinstance(arg, (ast.Name, ast.IfExp)) and is_const(flag) and isinstance(flag[1], bool)):
+                # the abstract value of a body buffer (also through a local alias / helper parameter / conditional expression) is its non-emptiness
+                ref = HttpStreamSpec.value(self, expr.args[0], st, depth)
+                if ref[0] == "r" and ref[1] in BUFS:
+                    flag = st.get(ref[1])
                     if not (is_const(flag) and isinstance(flag[1], bool)):
                         raise AnalysisError(f"emptiness of the body buffer is not known where {norm(expr)} is evaluated")
                     return ("size", "pos" if flag[1] else "nonpos")  # body events carry >= 1 byte: non-empty buffer = positive size
             if name == "expected_http_body_size":
                 return ("size", "pos" if self.cfg["expected"] == "error" else self.cfg["expected"])
         return HttpStreamSpec.value(self, expr, st, depth)
-
-    def _opt_alias(self, ch, opt, st, depth):
-        """`<local>.<opt>` where the local is bound to the options object (self.context.options)"""
-        if ch.count(".") == 1 and ch.endswith("." + opt):
-            v = st.get(f"{depth}:{ch.split('.')[0]}")
-            return v[0] == "r" and v[1].endswith("context.options")
-        return False
 
     def decide_leaf(self, cond, st, depth):
         if isinstance(cond, ast.Compare) and len(cond.ops) == 1:
@@ -404,19 +402,44 @@ def check(ctx):
     keep = lambda e: (e[0] == "assign" and e[1] in ("self.request_body_buf", "self.response_body_buf")) or (  # noqa: E731
         e[0] in ("call", "yield_from") and e[1] == "self.check_body_size"
     ) or (e[0] == "yield" and e[1].endswith("HeadersHook"))
-    for fname, buf in (("state_consume_request_body", "self.request_body_buf"), ("state_consume_response_body", "self.response_body_buf")):
+    # appends are found by value on the HttpStream model (a `+=` on the buffer attribute or on any local / helper parameter bound to it)
+    class AppendSpec(HttpStreamSpec):
+        """the size check itself stays opaque (labelled ('cbs',) where it is called); everything else of the state function is followed"""
+
+        @staticmethod
+        def _is_cbs(n):
+            return isinstance(n, ast.Call) and attr_chain(n.func) == "self.check_body_size"
+
+        def inline(self, call, st, depth):
+            return None if self._is_cbs(call) else HttpStreamSpec.inline(self, call, st, depth)
+
+        def events(self, node, st):
+            return [("cbs",) for n in ast.walk(node) if self._is_cbs(n)] + HttpStreamSpec.events(self, node, st)
+
+    from ..httpstream import init_env as _init_env
+
+    for fname, side, evkind in (("state_consume_request_body", "req", "RequestData"), ("state_consume_response_body", "resp", "ResponseData")):
         fn = ctx.func(REL, f"HttpStream.{fname}")
-        tr, eng = traces_of(fn, GenericSpec(keep=keep))
-        ctx.paths += len(tr)
+        params = [a.arg for a in fn.args.posonlyargs + fn.args.args if a.arg not in ("self", "cls")]
+        ctx.require(params, f"{fname} takes no event")
+        env = _init_env()
+        env.update({"self.client_state": R("self.state_consume_request_body" if side == "req" else "self.state_done"),
+                    "self.server_state": R("self.state_consume_response_body" if side == "resp" else "self.state_uninitialized"), "self.flow.response": C(side == "resp")})
+        finals = Engine(AppendSpec(m)).finals(fn, State((), env), {params[0]: EV(evkind)})
+        ctx.paths += len(finals)
         appends = 0
-        for t, how, s in tr:
+        unchecked = None
+        for f in finals:
+            t = f.trace
             for i, e in enumerate(t):
-                if e == ("assign", buf):
+                if e == ("buf+", side):
                     appends += 1
-                    nxt = t[i + 1] if i + 1 < len(t) else None
-                    ctx.check(nxt is not None and nxt[1] == "self.check_body_size", "R07.2", (REL, f"HttpStream.{fname}", fn), f"{buf} += ... ; then {nxt}",
-                              "a body chunk is buffered without re-checking the size limit (memory no longer bounded by limit + one chunk)", desc=f"{fname}: append followed by check")
-        ctx.require(appends >= 1, f"{fname}: no append to {buf} found (anchor changed)")
+                    nxt = t[i + 1] if i + 1 < len(t) else ("nothing",)
+                    if nxt != ("cbs",):
+                        unchecked = nxt
+        ctx.require(appends >= 1, f"{fname}: no append to the {'request' if side == 'req' else 'response'} body buffer found (anchor changed)")
+        ctx.check(unchecked is None, "R07.2", (REL, f"HttpStream.{fname}", fn), f"{'self.request_body_buf' if side == 'req' else 'self.response_body_buf'} += ... ; then check_body_size",
+                  f"a body chunk is buffered without re-checking the size limit (memory no longer bounded by limit + one chunk); the append is followed by {unchecked}", desc=f"{fname}: append followed by check")
     for fname, hook in (("state_wait_for_request_headers", "HttpRequestHeadersHook"), ("state_wait_for_response_headers", "HttpResponseHeadersHook")):
         fn = ctx.func(REL, f"HttpStream.{fname}")
         spec = GenericSpec(keep=keep)
@@ -442,14 +465,6 @@ def check(ctx):
     from ..pyint import Raised as PRaised
     from ..pyint import Rec as PRec
 
-    class _Ev:
-        def __init__(self, kind, sid, data):
-            self.kind, self.stream_id, self.data = kind, sid, data
-
-    class _Send:
-        def __init__(self, event, conn):
-            self.event, self.conn = event, conn
-
     IN = b" \x00<received>\xff\r\n "  # bytes a "harmless" normalisation (strip, decode/encode) would change
     for fname, bufattr, kind, side, msgattr in (
         ("state_stream_request_body", "request_body_buf", "RequestData", "server", "request"),
@@ -468,21 +483,35 @@ def check(ctx):
             for store in (False, True):
                 buf = bytearray()
                 server, client = PRec("Server"), PRec("Client")
-                msg = PRec("Message", stream=stream, trailers=None)
-                flow = PRec("HTTPFlow", live=True, error=None, websocket=None, **{msgattr: msg, ("response" if msgattr == "request" else "request"): PRec("Message", stream=False, trailers=None)})
+                # the message objects carry their repository class (the relay may decide the direction by `isinstance(message, http.Request)`)
+                mcls = {"request": "Request", "response": "Response"}
+                other = "response" if msgattr == "request" else "request"
+                msg = PRec(mcls[msgattr], _bases=("Message",), stream=stream, trailers=None)
+                flow = PRec("HTTPFlow", live=True, error=None, websocket=None, **{msgattr: msg, other: PRec(mcls[other], _bases=("Message",), stream=False, trailers=None)})
                 me = PRec("HttpStream", _bases=("Layer",), _impl=(REL, "HttpStream"), flow=flow, stream_id=7,
                           context=PRec("Context", server=server, client=client, options=PRec("Options", store_streamed_bodies=store)), **{bufattr: buf})
-                mk = lambda k: (lambda sid, data=None, *a, **kw: _Ev(k, sid, data))  # noqa: E731
-                ext = {"SendHttp": lambda ev, conn: _Send(ev, conn), "RequestData": mk("RequestData"), "ResponseData": mk("ResponseData")}
-                it = PInterp(m, externals=ext)
+                # SendHttp / RequestData / ResponseData are the repository's own (data)classes, instantiated by the interpreter: what is
+                # yielded is inspected by value (class, fields), however the objects are constructed (directly, through a local bound to the class)
+                it = PInterp(m)
                 ev = PRec(kind, _bases=("HttpEvent", "Event"), stream_id=7, data=IN)
                 try:
                     out = list(it.method(me, fname, ev))
                 except PRaised as r:
                     out = [f"<raises {r.name}>"]
                 ctx.cells += 1
-                sends = [o for o in out if isinstance(o, _Send)]
-                got = [(o.event.kind, o.event.stream_id, o.event.data, "server" if o.conn is server else "client" if o.conn is client else "?") for o in sends]
+                def parts(cmd):
+                    """(event, connection) carried by a SendHttp command, identified by what the values are (the interpreter's positional
+                    field order of a dataclass with a plain base class is not relied upon)"""
+                    vals = [v for k, v in vars(cmd).items() if not k.startswith("_")]
+                    evs = [v for v in vals if isinstance(v, PRec) and (v.isa("HttpEvent") or v._cls in ("RequestData", "ResponseData"))]
+                    conns = [v for v in vals if v is server or v is client]
+                    return (evs[0] if len(evs) == 1 else None), (conns[0] if len(conns) == 1 else None)
+
+                sends = [o for o in out if isinstance(o, PRec) and o._cls == "SendHttp"]
+                got = []
+                for o in sends:
+                    e, c = parts(o)
+                    got.append((getattr(e, "_cls", "?"), getattr(e, "stream_id", "?"), getattr(e, "data", "?"), "server" if c is server else "client" if c is client else "?"))
                 if (got != [(kind, 7, c, side) for c in want] or len(sends) != len(out)) and bad["relay"] is None:
                     bad["relay"] = f"stream = {sname}, store_streamed_bodies={store}: a received chunk is relayed as {got if len(sends) == len(out) else out!r}, expected {[(kind, 7, c, side) for c in want]}"
                 held = bytes(getattr(me, bufattr))
